@@ -203,6 +203,10 @@ def check_case(case):
                     continue
                 atol = 1e-12 * (float(np.max(groups_A[0])) * float(f[-1]) if dist == "normal" else 1.0) if ("std" in key and "nth" not in key) or key == "cov_fn" else 1e-300
                 g_, w_ = got[key], want
+                if key.startswith("nth_std_") and dist == "normal":
+                    # mean + n*std can cancel (e.g. mean = 2*std, n = -2): tolerance relative to the terms, not to the difference
+                    base, arg = key[len("nth_std_"):-1].split("(")
+                    atol = 1e-12 * (np.abs(np.asarray(ref["mean_" + base], dtype=float)) + abs(float(arg)) * np.abs(np.asarray(ref["std_" + base], dtype=float)))
                 if zero_col is not None and "curve" in key and dist != "normal":
                     g_, w_ = np.delete(np.asarray(g_, dtype=float), zero_col), np.delete(np.asarray(w_, dtype=float), zero_col)
                 if not close(g_, w_, rtol=1e-10, atol=atol):
